@@ -21,7 +21,7 @@ from mc import findings as F
 from mc import render
 
 VERIF = os.path.dirname(os.path.dirname(os.path.abspath(__file__)))
-MAX_REPORT = 5  # replay files / VIOLATION lines printed per run (all are counted)
+MAX_REPORT = 3  # replay files / VIOLATION lines printed per clause and run (all are counted)
 
 
 class Ctx:
@@ -70,7 +70,9 @@ class Ctx:
                     self.learned += 1
                     return "learned"
         self.violations += 1
-        if len(self.reported) < MAX_REPORT:
+        self._per_clause = getattr(self, '_per_clause', {})
+        self._per_clause[clause] = self._per_clause.get(clause, 0) + 1
+        if self._per_clause[clause] <= MAX_REPORT:
             d = os.path.join(VERIF, "replays", self.prop)
             os.makedirs(d, exist_ok=True)
             import re
